@@ -435,6 +435,8 @@ def run_case(case: dict) -> dict:
                 if sorted_before:
                     inc("sorted_before_pass")
                 # ---- bounded convergence
+                # (only single passes: a composition of opposing passes, e.g. AddInitializersToInputs +
+                # RemoveInitializersFromInputs, oscillates by construction and the statement does not cover it)
                 if mode == "repeat" and viol is None and not fault_fired:
                     modified = result.modified
                     while modified and rounds <= bound + 1:
@@ -447,7 +449,8 @@ def run_case(case: dict) -> dict:
                         modified = r2.modified
                     else:
                         if modified:
-                            viol = ("does-not-converge", f"step {si} {name}: still reports modified=True after {rounds} rounds (bound {bound})", f"does-not-converge|{name}")
+                            others_ = "+".join(sorted({o[0] for o in step.get("others", [])}))
+                            viol = ("does-not-converge", f"step {si} {name}{'+' + others_ if others_ else ''} ({mode}): still reports modified=True after {rounds} rounds (bound {bound})", f"does-not-converge|{name}" + (f"|with:{others_}" if others_ else ""))
                     if not modified and viol is None:
                         inc("reach_fixpoint")
                         if rounds >= 3:
